@@ -130,8 +130,8 @@ func (C15) Gen(r *core.Rng, tier string, emit func(string)) {
 				if e.TileID < minID {
 					minID = e.TileID
 				}
-				if e.TileID > maxID {
-					maxID = e.TileID
+				if l := e.TileID + uint64(e.RunLength) - 1; e.RunLength > 0 && l > maxID { // the run's last tile
+					maxID = l
 				}
 			}
 			h.AddressedTilesCount, h.TileEntriesCount, h.TileContentsCount = addressed, uint64(len(es)), uint64(len(offs))
@@ -356,8 +356,8 @@ func (C15) Oracle(line, goOut string) string {
 		if e.TileID < minID {
 			minID = e.TileID
 		}
-		if e.TileID > maxID {
-			maxID = e.TileID
+		if l := e.TileID + uint64(e.RunLength) - 1; e.RunLength > 0 && l > maxID { // the run's last tile
+			maxID = l
 		}
 	}
 	if addressed != h.AddressedTilesCount || uint64(len(flat)) != h.TileEntriesCount || uint64(len(offs)) != h.TileContentsCount {
